@@ -286,9 +286,13 @@ impl Check for NftConsecutive {
                         Step::BurnFrom { spender, from, id, signer: sign(rng, spender) }
                     }
                     58..=72 => {
-                        let approver = match rng.below(4) {
+                        let approver = match rng.below(6) {
                             0 => m.ops.keys().find(|k| Some(k.0) == o).map(|k| k.1).unwrap_or(from),
                             1 => any(rng),
+                            // the currently approved account tries to (re-)approve: only the owner or an operator may
+                            2 => m.approved(id).unwrap_or(from),
+                            // an operator of somebody else
+                            3 => m.ops.keys().find(|k| Some(k.0) != o).map(|k| k.1).unwrap_or(from),
                             _ => from,
                         };
                         let live = match rng.below(8) {
